@@ -199,6 +199,26 @@ pub fn generate(tier: &str, seed: u64) -> Vec<Rec> {
             }
         }
     }
+    // i128 accumulators with limbs far above 2^64 (up to the documented headroom 2^126): the carry out of a middle step
+    // exceeds 64 bits and must travel through several output limbs; both NTT120 backends, vectorised part and tail
+    for be in [3i128, 4] {
+        for (b, mag) in [(1i128, 70u32), (4, 90), (16, 100), (16, 79), (25, 120), (50, 113), (50, 125), (62, 125), (12, 64), (12, 76)] {
+            for (asize, rsize) in [(1usize, 3usize), (2, 4), (3, 5), (2, 2)] {
+                for off in [0i128, -b, -(2 * b + 3), 5, b] {
+                    if tier != "thorough" && (off == 5 || off == b) && asize != 2 { continue; }
+                    let code = 8201 + rng.below(4) as i64;
+                    let n = rng.pick(&[4usize, 8, 16]);
+                    let af: Vec<i128> = (0..n * asize).map(|i| {
+                        let top = 1i128 << (mag - (i as u32 % 3));
+                        let low = rng.i128() >> (127 - mag.min(100) + 8);
+                        if i % 2 == 0 { top + low } else { -top + low }
+                    }).collect();
+                    let resf: Vec<i128> = limb_vals(&mut rng, n * rsize, b as i64);
+                    out.push(Rec::new(code, vec![be, n as i128, 1, rsize as i128, rsize as i128, 0, 1, asize as i128, asize as i128, 0, b, b, off], vec![resf, af]));
+                }
+            }
+        }
+    }
     c08_enc::generate(tier, &mut rng, &mut out);
     out
 }
